@@ -43,6 +43,10 @@ def run(chk):
     with chk.shared():
         c01.r6(chk, prog, ft)        # re-parsing: the number read back is the library conversion of the emitted text
         from . import c09
+        from . import c20
+        mu = prog.module("json_util.c")
+        if mu is not None:
+            c20.r6(chk, prog, mu)      # the file a tree is saved to holds that text and nothing else
         c09._r6_serializer_data(chk, prog, m, "C09.R6", announce=True)   # a copy keeps the serializer that decides whether retained text is emitted
     chk.undecided_clauses += [
         "exactness of the %.17g double text itself (libc's conversion; value-level)",
